@@ -205,7 +205,7 @@ let () =
             Hashtbl.replace acc a (addu outs (outcome_str o), nv + List.length s.visited, tr, si,
                                    List.rev_append (List.map (fun v -> int_of_pos v.v_node) s.visited) vs)) segs;
         (out, !allsync, acc, List.sort compare !order) in
-      let variants = if !novar then [(!ft, !fc)] else [(!ft, !fc); (true, !fc); (!ft, true); (true, true)] in
+      let variants = if !novar then [(!ft, !fc)] else [(!ft, !fc); (true, true); (false, true); (true, false); (false, false)] in
       let variants = List.sort_uniq compare variants in
       let variants = (!ft, !fc) :: List.filter (fun v -> v <> (!ft, !fc)) variants in
       let rec try_variants = function
